@@ -42,6 +42,9 @@ def atoms_full():
         A.append([head, ["short", "240101"], ["short", "240131"]])
         A.append([head, ["short", "240115"], ["short", "240201"]])
         A.append([head, ["short", "240201"], ["short", "240101"]])  # end < start
+        # two-digit years always mean 20YY, also 69..99
+        A.append([head, ["short", "240101"], ["short", "991231"]])
+        A.append([head, ["short", "690101"], ["short", "700101"]])
         A.append([head, ["rel", 0, "d", False], None])
         A.append([head, ["rel", 1, "d", True], ["rel", 0, "d", False]])
         A.append([head, ["rel", 1, "m", True], None])
